@@ -594,6 +594,16 @@ macro_rules! declare_storage_n {
                             entities[dense_index_usize].version(),
                             self.slots.slice(self.capacity())[slot_index_usize].version());
 
+                        // Advance the versions up front. These can panic on overflow, so this must
+                        // happen before we make any changes in order to not leave a broken state.
+                        let next_version = self.version.next();
+                        let next_slot_version = self
+                            .slots
+                            .slice(self.capacity())
+                            .get_unchecked(slot_index_usize) // SAFETY: See declaration.
+                            .version()
+                            .next();
+
                         #[cfg(feature = "events")]
                         {
                             self.destroyed.push(*entities.get_unchecked(dense_index_usize));
@@ -624,10 +634,10 @@ macro_rules! declare_storage_n {
                         // Return the target slot to the free list
                         slots
                             .get_unchecked_mut(slot_index_usize) // SAFETY: See declaration.
-                            .release(self.free_head);
+                            .release(self.free_head, next_slot_version);
 
                         // Advance this storage's overall version (for add/removes).
-                        self.version = self.version.next();
+                        self.version = next_version;
 
                         result
                     };
